@@ -269,10 +269,17 @@ func recvOf(in ssa.Instruction) ssa.Value {
 		return nil
 	}
 	if c.IsInvoke() {
-		return c.Value
+		// a go-nfsd object seen through an interface is still that object
+		return stripConv(c.Value)
 	}
 	if f := c.StaticCallee(); f != nil && f.Signature.Recv() != nil && len(c.Args) > 0 {
 		return c.Args[0]
+	}
+	// a bound method value: the receiver travels in the closure
+	if mc, ok := c.Value.(*ssa.MakeClosure); ok && len(mc.Bindings) == 1 {
+		if fn, isF := mc.Fn.(*ssa.Function); isF && wrappedMethod(fn) != nil {
+			return stripConv(mc.Bindings[0])
+		}
 	}
 	return nil
 }
